@@ -218,7 +218,7 @@ CHECKS = {
              "open: the new process sees exactly the replay of the records appended since the previous open), C21_counterexample (two reopens: vote, committed id, "
              "3 of 4 entries and the peer address are gone; replayed on the real store on every run), C21_nonconsuming_holds (over a reader that starts from the beginning the property holds for "
              "every history). Correspondence: the real WalLogStore / MemLogStoreInner / peer-record code (sliced verbatim from storage.rs and node.rs at build time) over the real WriteAheadLog and "
-             "octopii's vendored engine copy, one child process per segment, ~210 programs per quick run (1500 thorough) compared line by line with LogStore.step; independent acknowledged-state oracle. Plus 50 (300) `faulty` programs - a record write of the log underneath fails inside an operation, the process restarts - compared with LogStore.stepFault; theorems C21_failed_operation_keeps_the_logs (a failed operation only adds a prefix of its records, acknowledges nothing, touches neither the peer log nor a cursor) and C21_failed_append_then_reopen (the restarted store reports the acknowledged state plus the first k entries of the failed append).",
+             "octopii's vendored engine copy, one child process per segment, ~210 programs per quick run (1500 thorough) compared line by line with LogStore.step; independent acknowledged-state oracle. Plus 50 (300) `faulty` programs - a record write of the log underneath fails inside an operation, the process restarts - compared with LogStore.stepFault; theorems C21_failed_operation_keeps_the_logs (a failed operation only adds a prefix of its records, acknowledges nothing, touches neither the peer log nor a cursor) and C21_failed_append_then_reopen (the restarted store reports the acknowledged state plus the first k entries of the failed append), C21_failed_single_record_then_reopen (a failed vote / committed / truncate write leaves exactly the acknowledged state).",
              note=BASE_NOTE + "openraft's LogId/Vote/Entry/LogState/IOFlushed and the storage traits, tokio and bincode are stand-ins (harness/octo/src/raftshim.rs, harness/shims): the real crates cannot be "
              "built offline. Process restarts only (no machine crash of the vendored engine copy). The bare wrapper is compared only in the way the store uses it (read_all straight after open). "
              "No repair committed: making recovery non-consuming needs a different read API use in octopii, which the baseline suite does not build.",
